@@ -306,6 +306,14 @@ func VerifC06Step() {
 			vt.activeScreen[r][c].Width = 1
 		}
 	}
+	// optionally the first two cells of the top row hold a wide glyph
+	wide := w >= 2 && zzverif.Bool("wideAt00")
+	if wide {
+		ref.grid[0][0] = rvCell{g: "世"}
+		ref.grid[0][1] = rvCell{g: "\x00cont"}
+		vt.activeScreen[0][0].Grapheme, vt.activeScreen[0][0].Width = "世", 2
+		vt.activeScreen[0][1].Grapheme, vt.activeScreen[0][1].Width = "", 0
+	}
 	ref.row, ref.col = zzverif.Choose("row", h), zzverif.Choose("col", w)
 	ref.top = zzverif.Choose("top", h)
 	ref.bot = ref.top + 1 + zzverif.Choose("botoff", h)
@@ -328,8 +336,8 @@ func VerifC06Step() {
 		op := verifC06Ops[zzverif.Choose("op", len(verifC06Ops))]
 		opname = op
 		// behaviour in the deferred-wrap state other than print, CR and absolute positioning
-		// is terminal-specific
-		zzverif.Assume(!ref.pending)
+		// (CUP / HVP below, and the single-axis forms CHA, HPA, VPA) is terminal-specific
+		zzverif.Assume(!ref.pending || op == "G" || op == "`" || op == "d")
 		np := zzverif.Choose("np", 2)
 		n := 1
 		if np == 1 && p1 > 0 {
@@ -428,7 +436,7 @@ func VerifC06Step() {
 		ref.row, ref.col = sr, sc
 		zzverif.Assert(vt.cursor.Style.Background == ref.penBg && vt.cursor.Style.Attribute == 0, "restore-cursor-restores-the-pen")
 	}
-	gridOK, styleOK := true, true
+	gridOK, styleOK, widthOK := true, true, true
 	for r := 0; r < h; r++ {
 		for c := 0; c < w; c++ {
 			ec := vt.activeScreen[r][c]
@@ -438,10 +446,17 @@ func VerifC06Step() {
 			}
 			gridOK = gridOK && verifNorm(ec.Grapheme) == rc.g
 			styleOK = styleOK && ec.Background == rc.bg && ec.Attribute == rc.at
+			// widths: a wide glyph is 2 cells wide, a blank or narrow cell is not
+			if rc.g == "世" {
+				widthOK = widthOK && ec.Width == 2
+			} else {
+				widthOK = widthOK && ec.Width != 2
+			}
 		}
 	}
 	zzverif.Assert(gridOK, "grid-graphemes-equal-reference")
 	zzverif.Assert(styleOK, "erased-cells-take-current-background")
+	zzverif.Assert(widthOK, "cell-widths-equal-reference")
 	if opname == "e" {
 		zzverif.Assert(int(vt.cursor.row) == ref.row || int(vt.cursor.row) == ref.vprAlt, "cursor-row-equals-reference")
 	} else {
